@@ -145,7 +145,33 @@ def build(run):
     return unit, hs, fieldless
 
 
+def explore(run):
+    """Bounded run-time-checked contract on the REAL Context::subtype_of (builtin context) over unions, intersections and value enums
+    of the built-in classes: the structural half of the judgement, which no deductive back end reaches (hash sets, closures over
+    iterators, unification). One finding per offending pair of types."""
+    import json
+    import subprocess
+    from vlib import replay as rp
+    binary = rp.build(run, 'c06')
+    args = ['deep'] if run.tier == 'thorough' else []
+    p = subprocess.run([binary] + args, capture_output=True, text=True, timeout=1200)
+    lines = [ln for ln in p.stdout.split('\n') if ln.strip().startswith('{')]
+    if not lines:
+        return {"found": False, "note": "replay produced no result: %s" % p.stderr[-300:]}
+    j = json.loads(lines[-1])
+    run.extra["bounded_contract_on_subtype_of"] = {"types": j.get("types"), "checks": j.get("checks"),
+        "universe": "Never, Obj, 8 built-in classes, unions of 2%s and intersections of 2 of {Bool, Nat, Int, Float, Str, NoneType}, 7 value enums" % (" and 3" if args else ""),
+        "laws": "reflexive; Never below / Obj above; tower strict; T <: (T or U); (T and U) <: T; enum below its class; a union is below S if every alternative is; a type below an alternative is below the union; transitive over all triples"}
+    fds = []
+    for v in j.get("violations", []):
+        fds.append({"key": v["pair"], "verdict": "%s although: %s%s" % (v["pair"], v["laws"], (" (" + v["why"] + ")") if v.get("why") else ""),
+                    "how": "the real Context::subtype_of on the builtin context, enumerated over the bounded universe", "input": {"pair": v["pair"]},
+                    "oracle": v["laws"], "replay_cmd": "%s %s" % (binary, ' '.join(args))})
+    return {"found": bool(fds), "findings": fds, "note": "%d types, %d checks, %d offending pairs" % (j.get("types", 0), j.get("checks", 0), len(fds))}
+
+
 def run(run, replay=None):
+    run.explorations.append(("Context::subtype_of", lambda: explore(run)))
     unit, hs, fieldless = build(run)
     res = unit.run([h[0] for h in hs], jobs=5, timeout_s=900)
     run.note_functions(unit.snippets)
